@@ -33,6 +33,18 @@ Residue (what a refused call had emitted is taken up by the next call that build
 presentations of the session's own object and Interludes (an unencodable object of another kind, same goroutine, same
 verifiers) are session steps, the value form "glued" is a genuine signature over residue || canonical bytes, and the
 driver demands that the walks expose Residue in both directions for every kind that builds signed bytes.
+
+The FORM of the bytes (round 9; clauses ExactBytes, ListIsJSON).  A signed log list and a DigitallySigned blob are handed
+to the verifier as bytes: "exactly the canonical signed bytes" are the signer's, octet for octet.  The same document D
+written another way - a UTF-8 byte order mark or white space in front, white space / a final newline / NUL behind, CRLF
+for LF, letter case a tolerant reader ignores, the same JSON value serialised again (compact, members reordered, backslash-u
+escapes) - is other bytes.  The table crosses the form an object was SIGNED in with the form it is PRESENTED in (the
+signature value untouched): equal forms verify, different forms do not, whichever of the two is the plain one.  The
+specification models the non-functions of the bytes explicitly - Strip(x) / Add(x): a verifier that reads form x as
+plain / plain as form x before it verifies - and TLC checks (NormExposed) that the table holds a false accept and a false
+reject for each.  loglist3.NewFromSignedJSON additionally parses: signed bytes that are not a JSON text (BOM, NUL) are
+refused by the parser, and must not be reported as a failed verification.  Sessions sign in any form and present
+the others on the same buffers ("dataform" is a component every walk set must expose in both directions).
 """
 import json
 
@@ -70,6 +82,16 @@ ASSUME = [
     "named clause Unencodable: extensions of 65536 bytes and more, an empty certificate / TBSCertificate (one of 2^24 bytes "
     "in the thorough tier), an entry type other than 0 / 1 have no encoding, hence no signed bytes: refused with an error. "
     "Go-level malformations of the caller's LogEntry (nil TimestampedEntry, nil arm pointers) are not presented",
+    "named clause ExactBytes: the bytes of a log list / blob in the forms plain, bom-prefix (EF BB BF), ws-prefix (space, tab, LF, "
+    "CRLF), ws-suffix (LF, CRLF, space, tab), nul-suffix, crlf (every LF as CRLF), case (log list: member names, which Go's JSON "
+    "decoder matches case-insensitively; blob: ASCII letters), compact / reordered / escaped (log list: the same JSON value "
+    "serialised again); signed-form x presented-form is crossed under SHA-256 with no other mutation; objects signed in the plain "
+    "form take the form change as one more single mutation under every hash; other normalisations (Unicode normalisation, "
+    "other encodings of the text, duplicate members) are not presented",
+    "named clause ListIsJSON: loglist3.NewFromSignedJSON returns a list iff the signature is valid over exactly the bytes and "
+    "they are a JSON text (RFC 8259: surrounding white space allowed, BOM and NUL not); for validly signed non-JSON bytes the "
+    "refusal must not be worded as a failed signature verification (the text 'verify signature' of its error is looked for; "
+    "a reworded error makes this one observation silent, never a false alarm)",
     "Residue (history): the glued value signs (prefix || canonical bytes) where the prefix is what an RFC 5246 encoder has "
     "emitted of the refused CertificateTimestamp when it meets the unencodable field (arbitrary bytes when nothing was "
     "refused before); an implementation leaving other residue is caught in the stale-reject direction only",
@@ -153,6 +175,17 @@ def run(ctx, replay=None):
     ok = [c for c in cases if c["c"]["kind"] not in ("Ctor", "Create") and c["expect"] == "ok"]
     if not ok or any(c["c"]["mut"]["m"] not in ("none", "value") for c in ok):
         raise Infra("decision table vacuous or accepting a mutated object")
+    # the form dimension (ExactBytes): for every kind handed over as bytes, every ordered pair of different forms is a
+    # case that must fail, and every form is a case that verifies as signed
+    for kind, nforms in (("LogList", 10), ("Blob", 7)):
+        fc = [c for c in cases if c["c"]["kind"] == kind and c["c"]["mut"]["m"] in ("none", "norm")]
+        pairs = {(c["c"]["dform"], c["pform"]) for c in fc}
+        forms = {a for a, _ in pairs}
+        accepted = {(c["c"]["dform"], c["pform"]) for c in fc if c["expect"] == "ok"}
+        if len(forms) != nforms or len(pairs) != nforms * nforms or accepted != {(f, f) for f in forms}:
+            raise Infra("form dimension of %s incomplete: %d forms, %d (signed, presented) pairs, accepted %s" % (
+                kind, len(forms), len(pairs), sorted(accepted)))
+    ctx.notes["forms"] = sorted({c["c"]["dform"] for c in cases})
     # 2. the history layer: TLC draws sessions over the same table (every session of two calls exhaustively in the
     #    thorough tier: the laws of the history as invariants)
     if ctx.thorough():
